@@ -1806,7 +1806,7 @@ fn gen_jobs(fx: &Arc<Fx>, seed: u64, scale: u32) -> (Vec<Job>, Vec<Group>) {
 	let n_rand = match scale {
 		0 => 60,
 		1 => 5000,
-		_ => 40000,
+		_ => 100000,
 	};
 	let n_entries = fx.entries.len();
 	for r in 0..n_rand {
@@ -2335,6 +2335,10 @@ fn parent_limits(run: &Run, scale: u32) {
 	};
 	let stdout = String::from_utf8_lossy(&out.stdout).to_string();
 	let stderr = String::from_utf8_lossy(&out.stderr).to_string();
+	// forward the worker's stderr (sanitizer reports of the worker must reach the driver)
+	if !stderr.trim().is_empty() {
+		eprintln!("{}", stderr);
+	}
 	let mut started: BTreeMap<u64, Value> = BTreeMap::new();
 	let mut table: BTreeMap<String, BTreeMap<String, Value>> = BTreeMap::new();
 	let mut done = false;
@@ -3001,8 +3005,8 @@ fn main() {
 	let (jobs, groups) = gen_jobs(&fx, run.seed, scale);
 	let budget = match scale {
 		0 => 120,
-		1 => 60,
-		_ => 540,
+		1 => 70,
+		_ => 560,
 	};
 	let deadline = Instant::now() + Duration::from_secs(budget);
 	run.count("stream_jobs_generated", jobs.len() as u64);
@@ -3046,13 +3050,13 @@ fn main() {
 			_ => c,
 		}
 	};
-	run.require("streams read back identically", run.counter("streams_ok"), q(300, 15_000, 40_000));
-	run.require("messages received", run.counter("messages_received"), q(1_000, 60_000, 200_000));
-	run.require("exhaustive single-split stream groups complete", complete as u64, q(0, 20, 40));
-	run.require("header batches received", run.counter("header_batches_received"), q(100, 1_000, 3_000));
-	run.require("attachment chunks received", run.counter("attachment_chunks_received"), q(20, 300, 800));
-	run.require("unknown-type frames skipped", run.counter("received.unknown"), q(20, 2_000, 5_000));
-	run.require("streams through conn::listen", run.counter("streams_ok.path_listen"), q(0, 100, 300));
+	run.require("streams read back identically", run.counter("streams_ok"), q(2_000, 40_000, 150_000));
+	run.require("messages received", run.counter("messages_received"), q(5_000, 150_000, 500_000));
+	run.require("exhaustive single-split stream groups complete", complete as u64, q(0, 40, 50));
+	run.require("header batches received", run.counter("header_batches_received"), q(200, 5_000, 30_000));
+	run.require("attachment chunks received", run.counter("attachment_chunks_received"), q(100, 1_000, 5_000));
+	run.require("unknown-type frames skipped", run.counter("received.unknown"), q(200, 4_000, 10_000));
+	run.require("streams through conn::listen", run.counter("streams_ok.path_listen"), q(0, 400, 1_500));
 	run.require("frames refused before the body", run.counter("frames_refused_before_body"), q(30, 250, 250));
 	run.require("within-limit frames accepted", run.counter("frames_within_limit_accepted"), q(15, 100, 100));
 	run.require("contradictory counts refused", run.counter("count_contradictions_refused"), q(40, 40, 40));
